@@ -206,17 +206,44 @@ func TestC02(t *testing.T) {
 				if len(live) == 0 {
 					t.Skip("nothing to delete")
 				}
-				pattern := rapid.IntRange(0, 6).Draw(t, "pattern")
+				pattern := rapid.IntRange(0, 9).Draw(t, "pattern")
 				a, b := rapid.IntRange(0, 1<<20).Draw(t, "a"), rapid.IntRange(0, 1<<20).Draw(t, "b")
-				targets := bulkDeleteTargets(live, pattern, a, b)
-				mc.logf("bulkDelete pattern=%d a=%d b=%d (%d of %d rows)", pattern, a, b, len(targets), len(live))
-				for _, c := range []*column.Collection{mc.C, twin} {
-					c.Query(func(txn *column.Txn) error {
-						for _, off := range targets {
-							txn.DeleteAt(off)
-						}
-						return nil
-					})
+				var targets []uint32
+				if pattern >= 7 {
+					// [With/Without(name);] DeleteAll - first rolled back on the primary only (no trace), then committed on both
+					name, without, tg := mc.deleteAllPlan(pattern, a, b)
+					targets = tg
+					mc.logf("bulkDelete DeleteAll name=%q without=%v (%d of %d rows), preceded by the same transaction rolled back", name, without, len(targets), len(live))
+					n0 := log.Len()
+					if err := runDeleteAll(mc.C, name, without, true); err == nil {
+						mc.fail(t, "Query returned nil for a body that returned an error")
+					}
+					if log.Len() != n0 {
+						mc.fail(t, "a rolled-back DeleteAll emitted %d commit(s) to the change stream", log.Len()-n0)
+					}
+					mc.CheckCount(t)
+					var sample []uint32
+					for i := 0; i < len(targets); i += 1 + len(targets)/40 {
+						sample = append(sample, targets[i])
+					}
+					mc.CheckRows(t, sample, ReadRowTyped, ReadTxnAny)
+					if len(targets) > 0 {
+						interesting = true
+						mc.flag("rollback-of-delete-all")
+					}
+					runDeleteAll(mc.C, name, without, false)
+					runDeleteAll(twin, name, without, false)
+				} else {
+					targets = bulkDeleteTargets(live, pattern, a, b)
+					mc.logf("bulkDelete pattern=%d a=%d b=%d (%d of %d rows)", pattern, a, b, len(targets), len(live))
+					for _, c := range []*column.Collection{mc.C, twin} {
+						c.Query(func(txn *column.Txn) error {
+							for _, off := range targets {
+								txn.DeleteAt(off)
+							}
+							return nil
+						})
+					}
 				}
 				for _, off := range targets {
 					mc.noteDeleted(off, mc.M.Rows[off])
